@@ -360,11 +360,16 @@ func run(r *h.Run, sc scenario) result {
 		switch sc.Terminal {
 		case "close":
 			termDone <- c.Close()
-		case "disconnect0", "disconnectT":
+		case "disconnect0", "disconnectT", "disconnect1ns":
 			var err error
-			if sc.Terminal == "disconnect0" {
+			switch sc.Terminal {
+			case "disconnect0":
 				err = c.Disconnect()
-			} else {
+			case "disconnect1ns":
+				// a timeout that has already run out when the wait for the pending
+				// futures begins
+				err = c.Disconnect(time.Nanosecond)
+			default:
 				err = c.Disconnect(50 * time.Millisecond)
 			}
 			if err == client.ErrClientNotConnected {
@@ -409,6 +414,9 @@ func run(r *h.Run, sc scenario) result {
 		confirmed, stacks := stuck.Confirm(time.Second, srv.Log.Len, "github.com/256dpi/gomqtt/client.(*Client)")
 		if confirmed {
 			key := "close-hangs"
+			if strings.HasPrefix(sc.Terminal, "disconnect") {
+				key = "disconnect-hangs"
+			}
 			if strings.Contains(stacks[0], "tomb") && cerr != nil {
 				key = "close-hangs/after-connect-could-not-be-sent"
 			}
@@ -699,7 +707,7 @@ func apiSeqs(depth int) [][]string {
 
 func TestCheck(t *testing.T) {
 	r := h.New("C09", "fault_enumeration")
-	r.Rule("client.Client against a scripted in-memory broker: CONNACK {ok, refused, absent, wrong first packet} x acknowledgement behaviour {normal, held and released in reverse order, withheld, spurious ids first, wrong kind for the live id first, SUBACK failure code} x all API sequences of length <= 3 over {publish q0/q1/q2, subscribe, unsubscribe} (plus sampled length 4, sequential or from 2-8 goroutines) x terminal event {Close, Disconnect(), Disconnect(50ms), broker drops the connection then Close} x optional resume with the same session; for a deterministic subset every single connection-fault position (k-th client-side Send/Receive, before/after, incl. the CONNECT itself) and every session-method failure position is enumerated. Oracles over the recorded event log: SavePacket before first send, future success only after the scripted broker logged the matching acknowledgement, session content at rest, retransmission with DUP on resume, every future resolved after the terminal call (and after a broker-side close), terminal call returns (goroutine-profile confirmed), accessors never panic. Non-trivial = runs that create >= 1 future and end the connection with it unresolved, or complete >= 1 QoS>0 flow; distinct by scenario")
+	r.Rule("client.Client against a scripted in-memory broker: CONNACK {ok, refused, absent, wrong first packet} x acknowledgement behaviour {normal, held and released in reverse order, withheld, spurious ids first, wrong kind for the live id first, SUBACK failure code} x all API sequences of length <= 3 over {publish q0/q1/q2, subscribe, unsubscribe} (plus sampled length 4, sequential or from 2-8 goroutines) x terminal event {Close, Disconnect(), Disconnect(50ms), Disconnect(1ns) with acknowledgements outstanding, broker drops the connection then Close} x optional resume with the same session; for a deterministic subset every single connection-fault position (k-th client-side Send/Receive, before/after, incl. the CONNECT itself) and every session-method failure position is enumerated. Oracles over the recorded event log: SavePacket before first send, future success only after the scripted broker logged the matching acknowledgement, session content at rest, retransmission with DUP on resume, every future resolved after the terminal call (and after a broker-side close), terminal call returns (goroutine-profile confirmed), accessors never panic. Non-trivial = runs that create >= 1 future and end the connection with it unresolved, or complete >= 1 QoS>0 flow; distinct by scenario")
 	r.Assume("packet ids are recovered from the client's own send log by unique payload / topic tags")
 	var base []scenario
 	terms := []string{"close", "disconnect0", "disconnectT", "broker-drop"}
@@ -725,6 +733,12 @@ func TestCheck(t *testing.T) {
 			continue
 		}
 		base = append(base, scenario{Connack: "ok", Acks: "normal", API: api, Terminal: terms[k%4], SlowLog: true, Workers: 1 + k%3})
+	}
+	// Disconnect with a timeout that is already over, with acknowledgements outstanding
+	for _, api := range [][]string{{"pub1"}, {"pub2"}, {"sub"}, {"pub1", "sub"}, {"pub2", "pub1", "unsub"}} {
+		for _, a := range []string{"withhold", "normal"} {
+			base = append(base, scenario{Connack: "ok", Acks: a, API: api, Terminal: "disconnect1ns"})
+		}
 	}
 	for _, ca := range []string{"refused", "absent", "wrong-first"} {
 		for _, term := range terms {
